@@ -84,7 +84,8 @@ exponent component with ANY flag combination -/
 theorem parseFloatSyntax_strip_mix (c : Cfg) (o : POpts) (hG : GenStrip c o) (hM : MixOK c) (s : List Nat)
     (hb256 : ∀ x ∈ s, x < 256) (fv : Bool) (n : Number) (cnt : Nat)
     (h : parseFloatSyntax c o false s fv = .ok (.number n cnt)) :
-    ∃ n', parseFloatSyntax c o false (nonSep c s) fv = .ok (.number n' (nonSep c s).length) ∧ NumRel c n n' :=
+    ∃ n', parseFloatSyntax c o false (nonSep c s) fv = .ok (.number n' (nonSep c s).length) ∧ NumRel c n n' ∧
+      SlicesOK c n :=
   parseFloatSyntax_strip_gen c o hG (hM.rescanI hG.rel.debug) (hM.rescanF hG.rel.debug) hM.stable s hb256 fv n cnt h
 
 end LexVerif.Proof.Sep
